@@ -577,6 +577,8 @@ def generate():
     report["files"].append("Gen/AlgKern.lean")
     report["kernels"].update(py2lean_kern.generate_mulkern(fns, gen_dir, write_if_changed))
     report["files"].append("Gen/MulKern.lean")
+    report["kernels"].update(py2lean_kern.generate_w3jkern(fns, gen_dir, write_if_changed))
+    report["files"].append("Gen/W3jKern.lean")
     # ---- Dispatch.lean (for the line-protocol driver): every generated def by name ------------
     import re as _re
     cases = []
